@@ -1,6 +1,6 @@
 (* C01 - BER encode/decode round trip under every encoder mode.  Statements only. *)
 From PV Require Import Base.Bytes Model.Tag Model.TableTypes Model.Types Model.Enc Model.Dec Gen.Tables
-     Proofs.TagOctets Proofs.TagsetShape Proofs.RoundTrip1.
+     Proofs.TagOctets Proofs.TagsetShape Proofs.RoundTrip1 Proofs.RoundTrip2.
 Local Open Scope N_scope.
 
 (* the framing octets invert *)
@@ -32,3 +32,34 @@ Example C01_roundtrip_stage1_nonvacuous :
   /\ encode BER true 0 T (VInt (-129)) = Ok [163; 6; 95; 135; 104; 2; 255; 127]
   /\ N.of_nat 8 <= index_max.
 Proof. vm_compute. repeat split; try reflexivity; discriminate. Qed.
+
+(* Stage 2, recursive, for every input: types built to ANY nesting depth from the simple types,
+   SEQUENCE OF, SET OF, SEQUENCE with mandatory components (the empty SEQUENCE included) and IMPLICIT /
+   EXPLICIT tagging of any of these with any non-universal tag; every value of such a type; anything
+   may follow.  Definite-length, unsegmented BER.  Not yet covered by a theorem: OPTIONAL/DEFAULT
+   components, SET, CHOICE, ANY, the indefinite and segmented modes (correspondence check only). *)
+Theorem C01_roundtrip_stage2 : forall T v b tl,
+  stage2_ty T = true -> stage2_val T v = true ->
+  encode BER true 0 T v = Ok b -> N.of_nat (length b) <= index_max ->
+  exists v', decode BER (Some T) (b ++ tl) = Ok (DV T v', tl) /\ abs T v' = abs T v.
+Proof. exact roundtrip_stage2. Qed.
+Print Assumptions C01_roundtrip_stage2.
+
+(* the same for every fuel that covers the encoding and the nesting depth: the model's fuel is not
+   what makes the theorem true *)
+Theorem C01_roundtrip_stage2_any_fuel : forall T v b tl fuel,
+  stage2_ty T = true -> stage2_val T v = true ->
+  encode BER true 0 T v = Ok b -> N.of_nat (length b) <= index_max ->
+  (length b + ty_depth T <= fuel)%nat ->
+  exists v', decode_with BER fuel (Some T) (b ++ tl) = Ok (DV T v', tl) /\ abs T v' = abs T v.
+Proof. exact roundtrip_stage2_fuel. Qed.
+Print Assumptions C01_roundtrip_stage2_any_fuel.
+
+Example C01_roundtrip_stage2_nonvacuous :
+  stage2_ty stage2_example_ty = true /\ stage2_val stage2_example_ty stage2_example_val = true
+  /\ encode BER true 0 stage2_example_ty stage2_example_val
+     = Ok [103; 48; 48; 46; 160; 9; 48; 7; 2; 1; 5; 2; 2; 255; 127; 161; 17;
+           48; 8; 1; 1; 1; 4; 3; 1; 2; 3; 48; 5; 1; 1; 0; 4; 0; 255; 135;
+           104; 10; 48; 8; 48; 4; 5; 0; 5; 0; 48; 0; 48; 0]
+  /\ N.of_nat 50 <= index_max.
+Proof. exact roundtrip_stage2_nonvacuous. Qed.
